@@ -37,11 +37,11 @@ def step (s : EfficiencyRatio F) (x : F) : EfficiencyRatio F :=
     count := if s.period ≤ s.count then s.count else s.count + 1,
     deque := s.deque.setIfInBounds s.index x }
 
-private theorem ite_pair {α β : Type} (c : Prop) [Decidable c] (a : α) (b b' : β) :
-    (if c then (a, b) else (a, b')) = (a, if c then b else b') := by
-  split <;> rfl
-
-/-- exact shape of `next` on a well-formed state -/
+/-- Normal form of `next` on a well-formed state (`first`, `step`, `volatility` are hand-written,
+    with my own canonical spelling of the two tests).  This and `next_none_of_gap` (a NON-well-formed
+    state) are the only facts proved by executing the generated body; they do so with
+    `rs_exec_prune`, which does not depend on how the wrap-around and warm-up tests are spelled.
+    Everything else (here and in `Exact/EfficiencyRatio.lean`) is derived from it. -/
 theorem next_eq (s : EfficiencyRatio F) (x : F) (h : WF s) :
     s.next x =
       (first s).bind fun f =>
@@ -52,10 +52,9 @@ theorem next_eq (s : EfficiencyRatio F) (x : F) (h : WF s) :
   obtain ⟨hp, hs, hsz, hi, hc, hfl⟩ := h
   have hm : isizeMax < usizeMax := by decide
   unfold next first volatility step
-  by_cases c1 : s.index + 1 < s.period <;> by_cases c2 : s.period ≤ s.count <;>
-    simp (disch := first | omega | (simp only [Array.size_setIfInBounds]; omega))
-      [index_eq, setIndex_eq, uadd_eq, slice_eq, ite_pair, volStep_def, c1, c2] <;>
-    rfl
+  simp only [volStep_def]
+  rs_exec_prune
+  all_goals (first | rfl | contradiction)
 
 /-- The zero-volatility guard: the output is `1` whenever the computed volatility tests equal
     to `0`, and the division is only reached otherwise. -/
@@ -95,12 +94,9 @@ theorem next_none_of_gap (s : EfficiencyRatio F) (x : F)
     (hsz : s.deque.size = s.period) (hs : s.period * 8 ≤ isizeMax)
     (h1 : s.count < s.index) (h2 : s.index + 1 < s.period) : s.next x = none := by
   have hm : isizeMax < usizeMax := by decide
-  have c2 : ¬ s.period ≤ s.count := by omega
   unfold next
-  simp (disch := first | omega | (simp only [Array.size_setIfInBounds]; omega))
-      [index_eq, setIndex_eq, uadd_eq, h2, c2]
-  simp [slice]
-  omega
+  rs_exec_prune
+  all_goals simp (disch := omega) only [slice_none, Option.bind_none]
 
 theorem nextBar_eq (s : EfficiencyRatio F) (b : Bar F) : s.nextBar b = s.next b.close := by
   unfold nextBar
